@@ -232,7 +232,7 @@ func forkCrossing(nc gen.NamedConfig, h uint64) bool {
 }
 
 func TestImportIsDeterministic(t *testing.T) {
-	ev.Check(t, ev.N(60, 2400), func(t *rapid.T) {
+	ev.Check(t, ev.N(100, 2400), func(t *rapid.T) {
 		nc := rapid.SampledFrom(gen.Configs()).Draw(t, "config")
 		tr := gen.DrawTree(t, nc, gen.TreeOpts{MaxBranches: ev.Pick(3, 5), MaxDepth: ev.Pick(9, 24), MaxTxs: 4, Uncles: true, MinMain: 3, ReuseTxs: true, Rivals: true})
 		defer tr.Close()
@@ -434,7 +434,7 @@ func corrupt(t *rapid.T, kind string, good *types.Block, tr *gen.Tree, nd *gen.T
 }
 
 func TestCorruptBlocksRejected(t *testing.T) {
-	ev.Check(t, ev.N(110, 4000), func(t *rapid.T) {
+	ev.Check(t, ev.N(220, 4000), func(t *rapid.T) {
 		nc := rapid.SampledFrom(gen.Configs()).Draw(t, "config")
 		tr := gen.DrawTree(t, nc, gen.TreeOpts{MaxBranches: 3, MaxDepth: 7, MaxTxs: 4, Uncles: true, MinMain: 4,
 			Kinds: []string{"transfer", "store-set", "store-clear", "emit", "emit", "reverter", "create", "bouncer", "forward", "suicide"}})
